@@ -13,7 +13,7 @@ LEVEL = "exploration"
 WORKERS = {"quick": 8, "thorough": 16}
 BUDGET = {"quick": 150, "thorough": 420}
 MIN_NONTRIVIAL = {"quick": 200, "thorough": 1500}
-REQUIRED_HOOKS = ["rewrite", "parse", "evaluate:I", "evaluate:C", "clause-alone"]
+REQUIRED_HOOKS = ["translation-history", "rewrite", "parse", "evaluate:I", "evaluate:C", "clause-alone"]
 RULE = (
     "Filter trees are built from list (implicit and), and, or, not with 1-3 children over primitive clauses translated by the real rewriters, one family per "
     "top-level shape of emitted CEL: == (value eq), ! prefix (boolean false / not-in), .contains call (in), && (marked-for-op, flow-logs), ?: (offhour opt-out), "
@@ -413,6 +413,7 @@ def run(ctx):
                 check_tree(h, shape, fams, f"conn{nconn}")
     if complete:
         acc.exhaustive.append(f"every filter tree with at most {maxconn} connective nodes (list/and/or/not, 1-3 children, <= 5 clauses) x all steering assignments")
+    translation_histories(h, ctx)
     # every family pair directly under each connective (systematic on clause shapes)
     k = 0
     for kind in ("list", "and", "or", "not"):
@@ -436,6 +437,30 @@ def run(ctx):
         rnd.shuffle(fams)
         check_tree(h, shape, fams, "random")
     acc.sample({"filters": [{"type": "value", "key": "k0", "op": "eq", "value": "v"}, {"or": [{"type": "value", "key": "b1", "op": "eq", "value": False}, {"type": "marked-for-op", "op": "stop", "tag": "mk2"}]}]})
+
+
+def translation_histories(h, ctx):
+    """The translation of a tree must not depend on which trees this process translated before: a sub-tree X is translated inside
+    one enclosing connective and right afterwards inside another one (same clauses, hence the same emitted text for X)."""
+    L = ("leaf",)
+    subs = [("or", [L, L]), ("and", [L, L]), ("list", [L, L]), ("not", [L, L]), ("not", [L]), ("or", [L, ("and", [L, L])]), ("or", [L]), ("and", [L])]
+    ctxs = [lambda x: ("or", [x, L]), lambda x: ("list", [x, L]), lambda x: ("and", [x, L]), lambda x: ("not", [x, L]), lambda x: ("or", [L, x]), lambda x: ("list", [L, x]), lambda x: ("not", [x]),
+            lambda x: ("or", [("or", [x, L]), L]), lambda x: ("list", [("or", [x, L]), L])]
+    fam_sets = [[FAMILIES[0], FAMILIES[0], FAMILIES[0], FAMILIES[0], FAMILIES[0]], [fam_eq(), fam_notbool(), fam_in(), fam_ne(), fam_eq()], [fam_offhour(), fam_eq(), fam_marked(), fam_eq(), fam_ni()]]
+    k = 0
+    for x in subs:
+        for i1, c1 in enumerate(ctxs):
+            for i2, c2 in enumerate(ctxs):
+                if i1 == i2:
+                    continue
+                k += 1
+                if not ctx.mine(k):
+                    continue
+                fams = fam_sets[k % len(fam_sets)]
+                h.acc.hook("translation-history")
+                check_tree(h, c1(x), fams, "history-first")
+                check_tree(h, c2(x), fams, "history-second")
+    h.acc.exhaustive.append("8 sub-trees x every ordered pair of 9 enclosing contexts, translated one after the other")
 
 
 def rand_shape(rnd, nconn, depth):
